@@ -19,3 +19,5 @@ require (
 )
 
 replace github.com/hknutzen/Netspoc-Approve/go => /repo/go
+
+replace github.com/tailscale/goexpect => ./overlay/fakeexpect
